@@ -23,7 +23,68 @@ def coq_term(prop, ver, op, args):
             elif a[i] == 'R': ops.append('HAddRange (%s) (%s)' % (a[i + 1], a[i + 2])); i += 3
             else: ops.append('HBuild'); i += 1
         return ('flat_map (fun ps => Z.of_nat (length ps) :: flat_map (fun r => [fst r; snd r]) ps ++ [end_of ps]) (run_hist [%s] empty_builder)' % '; '.join(ops), 'c11')
+    if op == 'Hist' and prop in ('C04', 'C07', 'C17', 'C13', 'C06', 'C14'):
+        t = hist_term(ver, a)
+        return (t, 'flat') if t else None
+    if op == 'Find' and prop in ('C09', 'C15', 'C05'):
+        t = find_term(ver, a)
+        return (t, 'find') if t else None
     return None
+
+
+def _take_list(a, i):
+    n = int(a[i]); return a[i + 1:i + 1 + n], i + 1 + n
+
+
+def hist_term(ver, a):
+    """run_history ver kind raw rep e ops, as a Coq term (None: not handled in the cross-check)"""
+    kinds = {'T': 0, 'G': 1, 'Q': 2, 'S': 3, 'C': 4}
+    if a[0] not in kinds: return None
+    raw, i = _take_list(a, 1)
+    rep, i = _take_list(a, i)
+    if len(raw) > 120: return None
+    e = a[i]; n = int(a[i + 1]); i += 2
+    ops = []
+    ik = {'F': 0, 'P': 0, 'B': 1, 'I1': 2, 'R1': 3, 'IA1': 4}
+    rk = {'A': 0, 'V': 1, 'K': 2}
+    for _ in range(n):
+        o = a[i]
+        if o in ('WS', 'WE', 'FWS', 'WSG', 'AT'):
+            ops.append('H%s %s (%s)' % (o, a[i + 1], a[i + 2])); i += 3
+        elif o == 'NEW':
+            k = a[i + 2]
+            if k == 'IA1': ops.append('HNEW %s 4 (%s)' % (a[i + 1], a[i + 3])); i += 4
+            else: ops.append('HNEW %s %d 0' % (a[i + 1], ik[k])); i += 3
+        elif o == 'NX': ops.append('HNX %s' % a[i + 1]); i += 2
+        elif o == 'RUN': ops.append('HRUN %s %d (%s)' % (a[i + 1], rk[a[i + 2]], a[i + 3])); i += 4
+        elif o == 'RR': ops.append('HRR %s %d (%s) (%s)' % (a[i + 1], rk[a[i + 2]], a[i + 3], a[i + 4])); i += 5
+        elif o == 'STR': ops.append('HSTR %s' % a[i + 1]); i += 2
+        elif o == 'ND': ops.append('HND %s' % a[i + 1]); i += 2
+        else: return None            # CNT: counting sources are not part of the extracted model's answer
+    v = {'v1': 1, 'v2': 2}.get(ver, 3)
+    return 'run_history %d %d %s %s (%s) [%s]' % (v, kinds[a[0]], zlist(raw), zlist(rep), e, '; '.join(ops))
+
+
+def find_term(ver, a):
+    kinds = {'T': 0, 'G': 1}
+    if a[0] not in kinds: return None
+    raw, i = _take_list(a, 1)
+    rep, i = _take_list(a, i)
+    if len(raw) > 150: return None
+    e, ws, we = a[i], int(a[i + 1]), int(a[i + 2])
+    pat, i = _take_list(a, i + 3)
+    fn, n = int(a[i]), a[i + 1]
+    if fn >= 11: fn, n = (7 if fn == 11 else 8), '-1'
+    elif fn == 9: fn = 7
+    elif fn == 10: fn = 8
+    v = {'v1': 1, 'v2': 2}.get(ver, 3)
+    view = 'fst (hist_base %d %d %s %s (%s))' % (v, kinds[a[0]], zlist(raw), zlist(rep), e)
+    dsrc = 'snd (hist_base %d %d %s %s (%s))' % (v, kinds[a[0]], zlist(raw), zlist(rep), e)
+    if ws >= 0: view = 'with_start (%s) %d' % (view, ws)
+    if we >= 0: view = 'with_end (%s) %d' % (view, we)
+    cap = max(330, len(raw) + 12)
+    return ('let tw := text_of (%s) (%s) %d in match find_model %d (%s) %s (fst tw) (snd tw) with Some l => Z.of_nat (length l) :: l | None => [-99] end'
+            % (dsrc, view, cap, fn, n, zlist(pat)))
 
 
 def root_tokens(vals):
@@ -52,7 +113,7 @@ def cross_check(root, rows, limit=120):
     try:
         v = os.path.join(tmp, 'cases.v')
         with open(v, 'w') as f:
-            f.write('From Coq Require Import ZArith List.\nRequire Import Pos PosHist RunList Compute.\nImport ListNotations.\nOpen Scope Z_scope.\n')
+            f.write('From Coq Require Import ZArith List.\nRequire Import Pos PosHist RunList Compute Views HistModel FindModel.\nImport ListNotations.\nOpen Scope Z_scope.\n')
             for i, (r, (expr, kind)) in enumerate(picks):
                 f.write('Definition c%d := Eval vm_compute in (%s).\nPrint c%d.\n' % (i, expr, i))
         p = subprocess.run(['coqc', '-R', th, 'SQ', v], stdout=subprocess.PIPE, stderr=subprocess.STDOUT, text=True, cwd=tmp, timeout=1800)
@@ -69,6 +130,16 @@ def cross_check(root, rows, limit=120):
             if kind == 'root':
                 want = root_tokens(vals)
                 got = model if model[:1] != ['PANIC'] else ['PANIC']
+            elif kind == 'flat':
+                want = [str(x) for x in vals]
+                got = model
+                if model[:1] == ['ERR']:
+                    continue
+            elif kind == 'find':
+                want = [str(x) for x in vals]
+                got = model[:len(want)]          # generator-backed cases append the source-call count
+                if model[:1] in (['NOTFINITE'], ['MODEL-PANIC'], ['RETURNS']):
+                    continue
             else:
                 want = [str(x) for x in vals]
                 # OCaml model prints nbuilt, the built values with End, then nbuilt and the re-read values: compare the first block
